@@ -15,7 +15,7 @@ import numpy as np
 
 from sx import symnp as _symnp
 from sx.engine import OutOfBound
-from sx.logic import AND
+from sx.logic import AND, NOT
 from sx.runner import Unit
 
 ID = "C09"
@@ -36,6 +36,9 @@ FUNCTIONS = [
     "nessai.proposal.analytic.AnalyticProposal.populate",
     "nessai.proposal.analytic.AnalyticProposal.draw",
     "nessai.model.Model.in_bounds",
+    "nessai.proposal.flowproposal.FlowProposal.configure_latent_prior",
+    "nessai.proposal.flowproposal.FlowProposal.prep_latent_prior",
+    "nessai.proposal.flowproposal.FlowProposal.draw_latent_prior",
     "nessai.utils.sampling.draw_nsphere",
     "nessai.utils.sampling.draw_surface_nsphere",
     "nessai.utils.sampling.draw_truncated_gaussian",
@@ -459,6 +462,95 @@ def make_latent_radius(kind, d):
     return body
 
 
+def make_latent_prep(latent_prior):
+    """Two successive populations with different radii through the real configure_latent_prior / prep_latent_prior /
+    draw_latent_prior: no latent point of either lies outside its own radius * fuzz (post-update state of the proposal)."""
+    def body(ctx):
+        import nessai.utils.sampling as smp
+        from nessai.proposal.flowproposal import FlowProposal
+        del _KNOWN_U[:]
+        d = 2
+        fuzz = ctx.real("fuzz", 1, 2)
+        radii = [ctx.real("r1", 0, 5), ctx.real("r2", 0, 5)]
+        ctx.assume((radii[0] > 0) & (radii[1] > 0))
+        saved = (smp.stats, smp.gammaincinv)
+        if ctx.mode == "sym":
+            _symnp.symrandom.reset()
+
+            def randn(*shape):
+                out = np.empty(shape, dtype=object)
+                flat = out.reshape(-1)
+                tot = 0
+                for i in range(flat.size):
+                    flat[i] = ctx.real(ctx.fresh("g"), -6, 6)
+                    tot = tot + flat[i] * flat[i]
+                ctx.assume(tot > 0)
+                return out
+            _symnp.symrandom.handlers["randn"] = randn
+            smp.stats = type("S", (), {"chi": _ChiStub(ctx)})()
+            smp.gammaincinv = _gammaincinv_stub(ctx)
+        fp = FlowProposal.__new__(FlowProposal)
+        fp.latent_prior = latent_prior
+        fp.parameters = ['x', 'y']    # dims = 2
+        fp.fuzz = fuzz
+        zs = []
+        try:
+            fp.configure_latent_prior()
+            for r in radii:
+                fp.r = r
+                fp.prep_latent_prior()
+                zs.append(fp.draw_latent_prior(1))
+        finally:
+            smp.stats, smp.gammaincinv = saved
+            if ctx.mode == "sym":
+                _symnp.symrandom.reset()
+        for k, (z, r) in enumerate(zip(zs, radii)):
+            ctx.prove(z.shape == (1, d), "one latent point of the right dimension")
+            n2 = 0
+            for j in range(d):
+                n2 = n2 + z[0, j] * z[0, j]
+            lim = r * fuzz
+            ctx.prove_le(n2, lim * lim * (1 + 1e-9 if ctx.mode == "conc" else 1), f"population {k + 1}: no latent point lies outside its radius r * fuzz")
+        ctx.cover("end")
+    return body
+
+
+def make_in_bounds():
+    """Model.in_bounds with two parameters whose bounds dictionary is in either order: True exactly for points inside
+    every parameter's own bounds (what check_prior_bounds relies on to drop flow samples)."""
+    def body(ctx):
+        from nessai.model import Model
+        b = {n: (ctx.real(f"lo_{n}", -5, 5), ctx.real(f"hi_{n}", -5, 5)) for n in ("x", "y")}
+        ctx.assume((b["x"][0] < b["x"][1]) & (b["y"][0] < b["y"][1]))
+        order = [("x", "y"), ("y", "x")][ctx.choice("bounds_dict_order", 2)]
+
+        class M(Model):
+            names = ["x", "y"]
+            bounds = {n: [b[n][0], b[n][1]] for n in order}
+
+            def log_prior(self, x):
+                raise NotImplementedError
+
+            def log_likelihood(self, x):
+                raise NotImplementedError
+        m = M()
+        n = 2
+        pts = np.zeros(n, dtype=[("x", object if ctx.mode == "sym" else float), ("y", object if ctx.mode == "sym" else float)])
+        for i in range(n):
+            for nm in ("x", "y"):
+                pts[nm][i] = ctx.real(f"{nm}{i}", -6, 6)
+        got = m.in_bounds(pts)
+        for i in range(n):
+            want = (pts["x"][i] >= b["x"][0]) & (pts["x"][i] <= b["x"][1]) & (pts["y"][i] >= b["y"][0]) & (pts["y"][i] <= b["y"][1])
+            g = got[i]
+            if isinstance(g, (bool, np.bool_)):
+                ctx.prove(want if g else NOT(want), "in_bounds is True exactly for points inside every parameter's own bounds")
+            else:
+                ctx.prove((g & want) | (NOT(g) & NOT(want)), "in_bounds is True exactly for points inside every parameter's own bounds")
+        ctx.cover("end")
+    return body
+
+
 def units(tier):
     us = []
     q = tier == "quick"
@@ -476,6 +568,10 @@ def units(tier):
     for kind in ("nsphere", "truncated_gaussian", "class"):
         us.append(Unit(f"latent_radius[{kind},d=2]", make_latent_radius(kind, 2), MODS + ["nessai.utils.sampling"], nl, expect_cover=["end"],
                        mutants=["tight"] if kind == "nsphere" else [], twin_runs=30, witness_every=1, nproc=1, time_budget_s=600))
+    us.append(Unit("in_bounds[2 params, either dict order]", make_in_bounds(), MODS, opts, expect_cover=["end"], twin_runs=30, witness_every=4, setup=setup, nproc=1))
+    for lp in ("truncated_gaussian", "uniform_nsphere"):
+        us.append(Unit(f"latent_prep[{lp},two populations]", make_latent_prep(lp), MODS + ["nessai.utils.sampling"], nl, expect_cover=["end"],
+                       twin_runs=30, witness_every=1, nproc=1, time_budget_s=600))
     for N in ((1, 2) if q else (1, 2, 3)):
         us.append(Unit(f"rejection_populate[N={N}]", make_rejection_populate(N), MODS, opts, expect_cover=["end"], twin_runs=20, witness_every=5, setup=setup, nproc=1))
         us.append(Unit(f"analytic[N={N}]", make_analytic(N), MODS, opts, expect_cover=["end"], twin_runs=10, witness_every=3, setup=setup, nproc=1))
